@@ -72,15 +72,35 @@ def run(ctx, rep) -> None:
     rep.check(ver_src in ('row["version"]', "row['version']"), "C08.R1", "claim version is the version that was read", f"version := {ver_src}", u.file, u.line, disc="version-src")
     sel = [s for s in qs if s.func.qualname == "SqliteQueue.poll_one" and s.kind == "SELECT"][0]
     rep.check("version" in sel.text.split("FROM")[0].lower(), "C08.R1", "eligibility SELECT reads the version", sel.text.strip().split("\n")[0][:80], sel.file, sel.line, disc="select-version")
-    # order: UPDATE; commit; rowcount==0 -> return None; then deserialize / _pending
+    # path rule: the message is deserialised / recorded as pending / returned only on paths where the claim's rowcount was non-zero,
+    # and the claim is committed before the outcome is used
+    from ..paths import Config, probe
+
+    pr_ = probe(ctx, "SqliteQueue.poll_one", Q, "SqliteQueue.poll_one", {}, Config(watch=frozenset({"deserialize_message", "commit", "execute"}), guards=frozenset({"*.rowcount == 0", "*.rowcount == 1", "*.rowcount != 0", "*.rowcount > 0"}), muted=frozenset({"except"})),
+                self_cls=(Q, "SqliteQueue"))
+    n_des = 0
+    bad_path = None
+    for p_ in pr_.paths:
+        lost = None
+        claimed = False
+        committed = False
+        for e in p_.trace:
+            if e.kind == "call" and e.get("name") == "execute" and e.site[1] == u.line:
+                claimed, committed, lost = True, False, None
+            elif e.kind == "call" and e.get("name") == "commit" and claimed:
+                committed = True
+            elif e.kind == "guard" and ".rowcount " in str(e.get("text")):
+                t_ = str(e.get("text"))
+                lost = e.get("truth") if t_.endswith("== 0") else (not e.get("truth"))
+            elif e.kind == "call" and e.get("name") == "deserialize_message":
+                n_des += 1
+                if not (claimed and committed and lost is False):
+                    bad_path = (e.site, claimed, committed, lost)
+    rep.check(bad_path is None and n_des > 0, "C08.R1", "loser returns before touching the message",
+              f"{n_des} path(s) reach deserialize_message, all after a committed claim with rowcount != 0" if bad_path is None else
+              f"deserialize_message reached with claim issued={bad_path[1]}, committed={bad_path[2]}, rowcount==0 decided {bad_path[3]}: a poller that lost the race still takes the message",
+              poll.file, (bad_path[0][1] if bad_path else poll.node.lineno), disc="order")
     body = poll.node.body
-    iu = _stmt_of(poll.node, u.node)
-    commits = [i for i, s in enumerate(body) if isinstance(s, ast.Expr) and norm(s).endswith(".commit()")]
-    lost = [i for i, s in enumerate(body) if isinstance(s, ast.If) and "rowcount == 0" in norm(s.test) and any(isinstance(x, ast.Return) for x in s.body)]
-    deser = [i for i, s in enumerate(body) if any(True for _ in _calls(s, "deserialize_message"))]
-    pend = [i for i, s in enumerate(body) if "self._pending[" in norm(s) and isinstance(s, ast.Assign)]
-    ok = bool(commits) and bool(lost) and bool(deser) and iu < min(c for c in commits if c > iu) < lost[0] < deser[0] and (not pend or lost[0] < pend[0])
-    rep.check(ok, "C08.R1", "loser returns before touching the message", f"stmt order: update@{iu} commit@{[c for c in commits if c > iu][:1]} lost-check@{lost[:1]} deserialize@{deser[:1]} pending@{pend[:1]}", poll.file, body[lost[0]].lineno if lost else poll.node.lineno, disc="order")
 
     # ---- R2 --------------------------------------------------------------------------------------------
     for fname, src_t, dst_t in (("move_to_dlq", QUEUE_T, DLQ_T), ("replay_dlq", DLQ_T, QUEUE_T)):
